@@ -8,7 +8,8 @@
      is a separate step that needs the mutex
    - handler_closes_then_done : SockClose precedes Done
    - handler_early_exit_after_register : SockClose enabled at Registered when closing
-   - reader_select_sees_closing : SockClose enabled at Idle/HeadPartial when closing
+   - reader_select_sees_closing, reader_reads_only_behind_select : SockClose enabled at
+     Idle/HeadPartial when closing, whatever part of a head is already buffered
    - decision_after_resmod, decision_checks_closing, decision_marks_and_closes,
      response_written_after_decision : ResModEnd, Decide (mark = closing), WriteHead,
      WriteDone, then SockClose iff marked. *)
@@ -19,7 +20,7 @@ Lemma source_shape_tie :
   close_signals_before_lock = true /\ close_waits_under_lock = true /\
   handler_adds_under_lock = true /\ handler_registers_in_goroutine = true /\
   handler_closes_then_done = true /\ handler_early_exit_after_register = true /\
-  reader_select_sees_closing = true /\
+  reader_select_sees_closing = true /\ reader_reads_only_behind_select = true /\
   decision_after_resmod = true /\ decision_checks_closing = true /\
   decision_marks_and_closes = true /\ response_written_after_decision = true.
 Proof. repeat split; reflexivity. Qed.
